@@ -230,10 +230,6 @@ impl Event {
 		self.0.type_
 	}
 
-	pub(super) fn start_offset(&self) -> u64 {
-		self.0.start_mark.index
-	}
-
 	pub(super) fn end_offset(&self) -> u64 {
 		self.0.end_mark.index
 	}
